@@ -24,7 +24,8 @@ def run(ctx):
         ctx, jobs, distribution=core.field_distribution(("S ", "N "), ["cfg", "hr", "pre", "k"], numeric=()),
         rule="seeded random: a haystack, a pattern of 0-3 atoms of every kind and polarity built from pieces of the haystack (so most match; one case in 300 has 1300-2000 matching atoms, a total "
              "beyond 65535), parsed under a "
-             "random CaseMatching x Normalization; one Matcher shared by all cases (its flags are whatever the previous atom left); Pattern::score, "
+             "random CaseMatching x Normalization (every third pattern has its atoms rebuilt by hand with Atom::new, a random kind and a random polarity each - pairs the parser never produces, "
+             "such as a negated fuzzy atom); one Matcher shared by all cases (its flags are whatever the previous atom left); Pattern::score, "
              "Pattern::indices, every Atom::score/indices, and Pattern::match_list over up to 5 items with duplicates and ties; after every third case a MultiPattern of 1-3 columns (every subset of the columns has a "
              "pattern, so empty columns stand in front of non-empty ones; column texts differ) scored with MultiPattern::score against each column's own Pattern::score; distinct non-trivial = "
              "distinct (config, haystack, atoms) with a non-empty pattern and haystack",
